@@ -101,6 +101,14 @@ def run(ctx, rep):
                 conds.add(g.expr(t.ops[0]))
     rep.check(any('block_has_invalid_parity' in c for c in conds) and any('is_timestamp_different' in c for c in conds), 'R-C15-2', 'file_is_unsynced set for invalid parity and for changed time-stamp', g.file, str(sorted(conds)), function='state_scrub_process', construct='unsynced sources')
 
+    # a block with invalid parity but no file (DELETED) still makes the stripe unsynced: the invalid-parity test precedes the no-file skip
+    rep.rule('R-C15-2d', 'in every stripe engine the invalid-parity test of a block precedes the skip of blocks without a file', 2)
+    for fn2 in ('state_scrub_process', 'state_sync_process'):
+        h = P.fn(fn2)
+        ip = [c for c in h.calls('block_has_invalid_parity')]
+        hf = [c for c in h.calls('block_has_file')]
+        okd = bool(ip) and bool(hf) and any(h.dominates(a, hf[0]) for a in ip)
+        rep.check(okd, 'R-C15-2d', '%s: block_has_invalid_parity is tested before the `no file` skip' % fn2, hf[0].loc() if hf else h.file, '', function=fn2, construct='invalid parity before skip')
     # R-C15-3 effects
     eff, seen, fns = effects.command_effects(P, 'state_scrub')
     bad_eff = set(eff) & {'DATA', 'PARITY', 'PARITY_CREATE', 'MTIME', 'MKDIR', 'POOL'}
